@@ -150,24 +150,10 @@ def judge(family, case, rec):
     except Exception as ex:
         rec.exception_violation("C19:ctor-exception", family, case, "DRFNet(graph, data) raised %s" % type(ex).__name__, ex)
         return
-    # ---- fits: exactly one per (non-source node, environment), on sorted parents of that environment
-    fits = [ev for ev in backend.LOG if ev["op"] == "fit"]
-    fit_of = {}
-    want_pairs = [(i, k) for i in nonsrc for k in range(e)]
-    unmatched = list(range(len(fits)))
-    for (i, k) in want_pairs:
-        X, Y = data0[k][:, parents[i]], data0[k][:, [i]]
-        hit = [f for f in unmatched if fits[f]["X"].shape == X.shape and np.array_equal(fits[f]["X"], X) and np.array_equal(fits[f]["Y"].reshape(-1, 1), Y)]
-        rec.count("fits-checked")
-        if len(hit) != 1:
-            rec.violation("C19:fit-missing-or-wrong", family, case,
-                          "variable %d, environment %d: %d forests were fitted on (data[%d][:, %s], data[%d][:, %d]); %d fits in total"
-                          % (i, k, len(hit), k, parents[i], k, i, len(fits)))
-            return
-        fit_of[(i, k)] = fits[hit[0]]["fit"]
-        unmatched.remove(hit[0])
-    if unmatched:
-        rec.violation("C19:unexpected-fit", family, case, "%d forest fits that belong to no (non-source node, environment) pair" % len(unmatched))
+    # ---- fits: every forest fitted - at construction or later - must be the model of one (non-source node, environment) pair,
+    # fitted on that pair's original columns (sorted parents -> the variable); a pair may be fitted lazily or more than once
+    fit_of = FitBook(data0, parents, nonsrc)
+    if not fit_of.absorb(backend.LOG, rec, family, case):
         return
 
     if case["k"] % 2:
@@ -242,13 +228,14 @@ def judge(family, case, rec):
             except Exception as ex:
                 rec.exception_violation("C19:sample-exception", family, case, "sample(%d, random_state=%r) raised" % (nbig, rs), ex)
                 return
-            preds = {ev["fit"]: ev for ev in events if ev["op"] == "predict"}
+            fit_of.absorb(events, rec, family, case)
             ranks = {}
             for i in nonsrc:
                 for k in range(e):
-                    ev = preds.get(fit_of[(i, k)])
-                    if ev is None or ev["weights"].shape[0] != nbig:
+                    evs = [ev for ev in events if ev["op"] == "predict" and fit_of.owner.get(ev["fit"]) == (i, k)]
+                    if not evs or sum(ev["weights"].shape[0] for ev in evs) != nbig:
                         continue
+                    ev = {"weights": np.vstack([ev["weights"] for ev in evs])}
                     pos = {v: r for r, v in enumerate(data0[k][:, i].tolist())}
                     col = np.asarray(res[k])[:, i].tolist()
                     rk = np.full(nbig, -1)
@@ -327,29 +314,32 @@ def _check_output(rec, family, case, res, events, sizes, data0, parents, sources
                               "environment %d, variable %d contains values never observed for it in that environment" % (k, i), **ctx)
                 return False
     preds = [ev for ev in events if ev["op"] == "predict"]
-    if any(ev["op"] == "fit" for ev in events):
-        rec.violation("C19:refit-during-sample", family, case, "forests were re-fitted during sample()", **ctx)
+    if not fit_of.absorb(events, rec, family, case):       # forests fitted during sample() are judged like those fitted at construction
         return False
     used = [False] * len(preds)
     for i in nonsrc:
         for k in range(e):
             a = np.asarray(res[k])
             want_new = a[:, parents[i]]
-            hits = [q for q, ev in enumerate(preds) if not used[q] and ev["fit"] == fit_of[(i, k)]]
+            hits = [q for q, ev in enumerate(preds) if fit_of.owner.get(ev["fit"]) == (i, k)]
             rec.count("queries-checked")
-            if len(hits) != 1:
+            if not hits:
                 rec.violation("C19:query-count", family, case,
-                              "variable %d, environment %d: %d queries reached its forest during one sample call (expected exactly 1; %d queries in total)"
-                              % (i, k, len(hits), len(preds)), **ctx)
+                              "variable %d, environment %d: no query reached a forest fitted to it during the sample call (%d queries in total)"
+                              % (i, k, len(preds)), **ctx)
                 return False
-            ev = preds[hits[0]]
-            used[hits[0]] = True
-            if ev["newdata"].shape != want_new.shape or not np.array_equal(ev["newdata"], want_new):
+            if len(hits) > 1:
+                rec.count("queries:in-several-batches")
+            for q in hits:
+                used[q] = True
+            # one query or several (batches): together they must present the final synthetic parent columns, row by row
+            new_all = np.vstack([preds[q]["newdata"].reshape(-1, max(1, len(parents[i]))) for q in hits])
+            Wt = np.vstack([preds[q]["weights"] for q in hits])
+            if new_all.shape != want_new.shape or not np.array_equal(new_all, want_new):
                 rec.violation("C19:query-not-on-synthetic-parents", family, case,
                               "variable %d, environment %d: the forest was queried with data that is not the final synthetic columns of its parents %s (in increasing index)"
                               % (i, k, parents[i]), **ctx)
                 return False
-            Wt = ev["weights"]
             Y = data0[k][:, i]
             col = a[:, i]
             for r in range(len(col)):
@@ -359,9 +349,41 @@ def _check_output(rec, family, case, res, events, sizes, data0, parents, sources
                                   "variable %d, environment %d, row %d: value is not among the training responses weighted by its query row" % (i, k, r), **ctx)
                     return False
     if not all(used):
-        rec.violation("C19:unexpected-query", family, case, "%d queries addressed to forests of no (non-source node, environment) pair or repeated" % (len(used) - sum(used)), **ctx)
+        rec.violation("C19:unexpected-query", family, case, "%d queries addressed to forests of no (non-source node, environment) pair" % (len(used) - sum(used)), **ctx)
         return False
     return True
+
+
+class FitBook:
+    """Which (variable, environment) pair every fitted forest belongs to, decided from the data it was fitted on."""
+
+    def __init__(self, data0, parents, nonsrc):
+        self.data0, self.parents, self.nonsrc = data0, parents, nonsrc
+        self.owner = {}          # fit id -> (variable, environment)
+        self.seen = set()
+
+    def absorb(self, events, rec, family, case):
+        for ev in events:
+            if ev["op"] != "fit" or ev["fit"] in self.seen:
+                continue
+            self.seen.add(ev["fit"])
+            rec.count("fits-checked")
+            hit = None
+            for i in self.nonsrc:
+                for k in range(len(self.data0)):
+                    X, Y = self.data0[k][:, self.parents[i]], self.data0[k][:, [i]]
+                    if ev["X"].shape == X.shape and np.array_equal(ev["X"], X) and np.array_equal(np.asarray(ev["Y"]).reshape(-1, 1), Y):
+                        hit = (i, k)
+                        break
+                if hit:
+                    break
+            if hit is None:
+                rec.violation("C19:fit-missing-or-wrong", family, case,
+                              "a forest was fitted on data (X %r, Y %r) that are not the original columns (sorted parents -> variable) of any "
+                              "(non-source variable, environment) pair" % (ev["X"].shape, np.asarray(ev["Y"]).shape))
+                return False
+            self.owner[ev["fit"]] = hit
+        return True
 
 
 def _errors(semi, rec, family, case):
